@@ -70,6 +70,10 @@ CHECKS = {
   "runtime monitoring of a real Receiver (Run loop, downloaders, token limits) and of run-once Sync on an instrumented, fault-scripted bucket: offline oracles over the delivery log, bucket log and quiescent token gauges; porcupine linearizability check of recorded Acquire/Release histories against a counting semaphore",
   "Generated bucket evolutions (1-12 instances, snapshots appearing, replaced while un-merged, cleaned between List and Load), List/Load fault scripts, corrupt blobs at every position, Load latencies, fast/slow/holding consumers, all limit pairs: bounded-progress delivery (300 List cycles after changes and faults stop), never more Loads in flight than configured, bounded number of snapshots held between download and hand-over, no token leak at quiescence. Run-once Sync must end by itself, only after every present decodable start-up instance was merged and after its own upload. Token histories with double and cross-goroutine releases are checked with porcupine.",
   "Transient gauge samples are observations only (decrement happens after the token is returned). Poll intervals 1 ms; progress measured in List cycles.", "DESIGN.md section 6 C16"),
+ "C17": ("exploration",
+  "Go race detector on repeated concurrent workloads with yield-point delay injection (reports de-duplicated by innermost repository frame pair), closed-system wedge detection for topics, cancellation at every yield point, per-process global-storage trials, concurrent token releases",
+  "A worker built with -race runs fleets of real sync loops with cleaners, sweepers, writers, storage faults and randomly failing/closing event subscribers; a real Sync is cancelled at every yield point x occurrence and at random instants (ctx-honouring/-ignoring bucket, failing start-up listing) and must return; closed topic systems with forced Close-during-publish must terminate; GetGlobal callers before/concurrent/after SetGlobal (one process per trial) must get a set handle; one token released concurrently from 4 goroutines thousands of times must neither panic nor corrupt the limit.",
+  "Only the interleavings produced are judged; races inside cgo/LMDB are invisible; leftover helper goroutines are observations.", "DESIGN.md section 6 C17"),
  "C18": ("fault_enumeration",
   "runtime monitoring of real LoadOnce merges with failures injected at enumerated positions (DBI index x entry position x failure kind), byte-exact before/after dumps of the whole LMDB, and a concurrent reader checking all-or-none per snapshot batch id",
   "Failure kinds: malformed entry bytes (4 variants, lazily parsed so they surface mid-merge), unsupported/inconsistent transforms, pre-v3 snapshot for a missing DBI in shadow mode (with/without override_create_flags), LMDB map full (map 1-8 MB vs snapshots 0.5-16 MB), cancellation after the k-th context poll, format x compat versions 0..4 x 0..4, private DBIs in the snapshot; native and shadow. A failed merge must leave dump and LastTxnID unchanged, a successful one must be complete, a reader must never see part of a snapshot, older formats must keep their documented meaning.",
